@@ -203,7 +203,7 @@ def run(ctx, chk):
                      % [(r_.status, fmt(r_.ret)[:80] if r_.ret is not None else None) for r_ in rb][:2], 'src/cart.rs', None)
     # ---- rule 3 / 5: load_rom paths
     opq = ['system::open_rom_file', 'system::read_header', 'cart::Header::valid_checksum', 'cart::Header::get_title',
-           CORE + 'from_rom_file', 'cart::Header::get_rom_size_bytes']
+           CORE + 'from_rom_file']
     models = {q: absint.m_pure('filelen', None) for q in LEN_QUERIES}
     models['std::result::Result::<T, E>::map'] = absint.m_pure('resmap', None)
     models['std::result::Result::<T, E>::unwrap_or'] = absint.m_pure('unwrap_or', None)
@@ -225,7 +225,28 @@ def run(ctx, chk):
             v = vc[0][3]
             if r.state.env.const_of(v) != 1:
                 bad3 = 'from_rom_file is reached on a path where valid_checksum is not known true'
-            # rule 5: a decision that compares a file-length query with the declared size
+            # rule 5, decided on values: on an accepting path the file length is at least the declared ROM size (the size
+            # table is evaluated on the path's header, however the comparison is written - bytes, banks, rounded)
+            hrefs = [c[2][0] for c in calls if c[1] == 'cart::Header::valid_checksum' and c[2]]
+            lsyms = set()
+            for d in r.state.decisions:
+                for s_ in syms_of(d[0]):
+                    if any(k_ in s_[2] for k_ in ('filelen', 'resmap', 'unwrap_or')):
+                        lsyms.add(s_)
+            sem_ok = False
+            if hrefs and lsyms:
+                from .. import bvproof as _bp5
+                szs = [(q.ret, q.state.env) for q in ipl.run('cart::Header::get_rom_size_bytes', [hrefs[0]], r.state.copy())
+                       if q.status == 'ok' and q.ret is not None and T.is_int(q.ret)]
+                for L_ in lsyms:
+                    L64 = L_ if L_[1] == 64 else O(64, 'zext', L_)
+                    if szs and all(_bp5.equal_under(O(1, 'ult', L64, sz_ if sz_[1] == 64 else O(64, 'zext', sz_)), C(1, 0), env_, 1)
+                                   is True or env_.const_of(O(1, 'ult', L64, sz_ if sz_[1] == 64 else O(64, 'zext', sz_))) == 0
+                                   for sz_, env_ in szs):
+                        sem_ok = True
+            if not sem_ok:
+                len_cmp_all = False
+            continue
             lens = [e[3] for e in r.state.events if e[0] == 'pure' and 'filelen' in fmt(e[3])]
             decl = [c[3] for c in calls if c[1] == 'cart::Header::get_rom_size_bytes']
             found = False
@@ -257,12 +278,13 @@ def run(ctx, chk):
     else:
         chk.fail('C19.3', 'messages', 'a rejecting path of load_rom prints no message', 'src/main.rs', None)
     if accept and len_cmp_all:
-        chk.ok('C19.5', 'length-check', sample={'compared': 'file length vs get_rom_size_bytes() before Core::from_rom_file'})
+        chk.ok('C19.5', 'length-check', sample={'proved on every accepting path': 'file length >= get_rom_size_bytes() (size table evaluated on the path)'})
     else:
         path = prog.path_to(prog.reachable_fns([LOAD]), 'system::linux::map_rom_file')
-        chk.fail('C19.5', 'length-check', 'no comparison of the file length with the declared ROM size guards the path to mmap '
-                 '(%s): a file shorter than its header declares is mapped beyond its end and faults when the missing part is '
-                 'read' % ' -> '.join(p[0] for p in path), 'src/system/linux.rs', prog.fns['system::linux::map_rom_file']['line'])
+        chk.fail('C19.5', 'length-check', 'an accepting path of load_rom does not imply file length >= declared ROM size, which '
+                 'guards the path to mmap (%s): a file shorter than its header declares is mapped beyond its end and faults '
+                 'when the missing part is read' % ' -> '.join(p[0] for p in path), 'src/system/linux.rs',
+                 prog.fns['system::linux::map_rom_file']['line'])
     # ---- rule 8: mmap failure
     mapfail(chk, prog)
     # ---- rule 4
